@@ -95,7 +95,7 @@ def annotate(streams_path, cases_path, out_path, seeds_path):
             if t[0] == "S" and len(t) >= 2:
                 sid = t[1].strip()
                 k = sid.split(".", 1)[0]
-                classes[re.sub(r"[\d.=a-f]+$", "", sid.split(".", 1)[1]) if "." in sid else "?"] += 1
+                classes[re.match(r"[a-z]*", sid.split(".", 1)[1]).group(0) if "." in sid else "?"] += 1
                 cur_seed = k if k in seeds and seeds[k][0] == sid else None
                 n = 0
                 if k in seeds and sid in raw:
@@ -116,6 +116,42 @@ def annotate(streams_path, cases_path, out_path, seeds_path):
     return raw, order, seeds, dict(classes), {k: len(v) for k, v in chunk_ends.items()}
 
 
+def recheck_hangs(c, streams_path, cases_path, limit=3, timeout=150):
+    """the harness' watchdog reports HANG after 10 s without progress; a chunk close to the reader's size limit (2^27 values) legitimately
+    takes longer through five readers. Up to `limit` reported hangs are re-run alone with a generous timeout: a stream that then completes
+    is observed normally (and noted as slow), one that does not stays a HANG."""
+    import time
+    lines = open(cases_path, errors="replace").read().split("\n")
+    all_streams = open(streams_path).read().split("\n")
+    slow, done = [], 0
+    i = 0
+    while i < len(lines):
+        m = re.match(r"HANG (\d+)\b", lines[i])
+        if m and done < limit and int(m.group(1)) < len(all_streams):
+            done += 1
+            idx = int(m.group(1))
+            sp, op = os.path.join(c.work, "recheck.streams.txt"), os.path.join(c.work, "recheck.cases")
+            open(sp, "w").write(all_streams[idx] + "\n")
+            if os.path.exists(op):
+                os.remove(op)
+            t0 = time.time()
+            rc, _ = c.harness(["c04worker", sp, op, "0"], timeout=timeout)
+            if rc == 0 and os.path.exists(op):
+                blk = [l for l in open(op, errors="replace").read().split("\n") if l.strip() and not l.startswith("BEGIN")]
+                if blk and blk[-1].strip() == "ENDS":
+                    j = i + 1
+                    while j < len(lines) and lines[j].strip() != "ENDS":
+                        j += 1
+                    lines[i:j + 1] = blk
+                    slow.append({"stream": all_streams[idx].split(" ")[0], "seconds": round(time.time() - t0, 1)})
+                    i += len(blk)
+                    continue
+        i += 1
+    if slow:
+        open(cases_path, "w").write("\n".join(lines))
+    return slow
+
+
 def run(c):
     pr = c.coq_props(PROPS, extra_targets=["Extract/ExFrame.v"])
     okb, _ = c.ocaml_build("frame_model", "c04_run.ml", "c04_run")
@@ -132,6 +168,7 @@ def run(c):
             c.violation({"kind": "harness failed while observing the implementation", "output": out[-3000:]}, no_input=True)
         else:
             streams, cases = os.path.join(c.work, "streams.txt"), os.path.join(c.work, "read.cases")
+            slow = recheck_hangs(c, streams, cases)
             ann, seedsf = os.path.join(c.work, "read.annot.cases"), os.path.join(c.work, "seeds.txt")
             raw, order, seeds, classes, seed_chunks = annotate(streams, cases, ann, seedsf)
             mism, viol, summ, _ = cc.run_driver_sharded(c, "c04_run", ann, "malformed streams", extra_args=(seedsf,), shards=14)
@@ -139,13 +176,16 @@ def run(c):
             samples = [l.strip()[:200] for l in open(ann) if l.startswith(("S s0.sub", "S s1.pcut", "S s2.len"))][:3]
             cov.update(evaluations=summ.get("cases", 0), distinct_nontrivial=summ.get("damaged", 0), samples=samples,
                        disagreements_checked=len(mism), input_distribution=classes, oracle_violations=len(viol),
-                       crashes_or_hangs=int(m.group(1)) if m else None, skipped_huge=summ.get("skipped_huge", 0),
+                       crashes_or_hangs=(int(m.group(1)) - len(slow)) if m else None, skipped_huge=summ.get("skipped_huge", 0),
+                       slow_streams_rechecked=slow,
                        streams_with_chunks_before_damage=summ.get("with_chunks_before_damage", 0),
                        seeds={k: {"bytes": len(v[1]), "chunks": seed_chunks.get(k)} for k, v in seeds.items()},
                        reader_entry_points=["ReadChunks (+Chunk.Iterator, Chunk.StructuredIterator)", "ReadStructuredMetrics", "ReadMetrics",
                                             "ReadMatrix", "ReadSeries"],
-                       exhaustive={"prefixes_of_each_seed": True, "payload_cuts_of_each_chunk": True,
-                                   "single_byte_edits_at_every_offset": c.tier == "thorough"})
+                       exhaustive=False,
+                       exhaustive_parts={"prefixes_of_each_seed": True, "payload_cuts_of_each_chunk": True,
+                                         "single_byte_edits_at_every_offset": c.tier == "thorough"})
+            viol.sort(key=lambda v: 0 if (" CRASH " in v or " HANG " in v) else 1)   # crashes and hangs first
             for v in viol[:3]:
                 rep = {"kind": "C04 oracle false on the implementation's observation", "case": v[:3000]}
                 mi = re.search(r"worker index (\d+)", v)
@@ -157,6 +197,9 @@ def run(c):
                     rep.update(stream_id=ms.group(1), stream_hex=raw[ms.group(1)].hex())
                 rep["how_to_replay"] = "./check C04 --replay <this file>"
                 c.violation(rep)
+            for x in slow:
+                c.notes.append("stream %s tripped the harness' 10 s watchdog but completed in %.0f s when re-run alone (a chunk close to the "
+                               "reader's 2^27-value limit); observed normally" % (x["stream"], x["seconds"]))
             if mism and not viol:
                 c.broken.append("correspondence model<->readers: %d disagreements, first: %s" % (len(mism), mism[0][:600]))
     if c.broken and not c.violations:
